@@ -28,6 +28,7 @@ type World struct {
 	TS  *server.Teamserver
 	H   *handlers.HTTP
 	Ext *handlers.External
+	noSocket bool
 }
 
 func init() { gin.SetMode(gin.ReleaseMode) }
@@ -44,7 +45,16 @@ func ScratchBase() string {
 // NewWorld builds the teamserver, starts (and immediately closes the socket of) one
 // HTTP listener named "http" with no URI/header/user-agent constraints, and one
 // External-C2 endpoint "ext".
-func NewWorld(prof *profile.Profile) (*World, error) {
+func NewWorld(prof *profile.Profile) (*World, error) { return newWorld(prof, false) }
+
+// NewWorldNoSocket is NewWorld for checks built with -race: the listener is given a port that
+// cannot be bound ("-1"), so the goroutine Start() spawns fails in net.Listen at once, reports
+// EventListenerError and ends.  The harness waits for that event under the teamserver's own
+// events mutex (a clean happens-before edge) and never touches h.Server, which that goroutine
+// writes without synchronisation.
+func NewWorldNoSocket(prof *profile.Profile) (*World, error) { return newWorld(prof, true) }
+
+func newWorld(prof *profile.Profile, noSocket bool) (*World, error) {
 	dir, err := os.MkdirTemp(ScratchBase(), "agx-")
 	if err != nil {
 		return nil, err
@@ -60,16 +70,37 @@ func NewWorld(prof *profile.Profile) (*World, error) {
 	h := handlers.NewConfigHttp()
 	h.Config = handlers.HTTPConfig{Name: "http", Hosts: []string{"127.0.0.1"}, HostBind: "127.0.0.1", PortBind: "0", HostRotation: "round-robin"}
 	h.Teamserver = ts
+	if noSocket {
+		h.Config.PortBind = "-1"
+	}
 	h.Start()
 	ts.Listeners = append(ts.Listeners, &server.Listener{Name: "http", Type: handlers.LISTENER_HTTP, Config: h})
 	w.H = h
-	// the listener's own socket is not needed: close it as soon as it exists
 	deadline := time.Now().Add(5 * time.Second)
-	for h.Server == nil && time.Now().Before(deadline) {
-		time.Sleep(200 * time.Microsecond)
-	}
-	if h.Server != nil {
-		h.Server.Close()
+	if noSocket {
+		for time.Now().Before(deadline) {
+			failed := false
+			ts.EventsMutex.Lock()
+			for _, ev := range ts.EventsList {
+				if ev.Head.Event == packager.Type.Listener.Type && ev.Body.SubEvent == packager.Type.Listener.Error {
+					failed = true
+				}
+			}
+			ts.EventsMutex.Unlock()
+			if failed {
+				break
+			}
+			time.Sleep(200 * time.Microsecond)
+		}
+		w.noSocket = true
+	} else {
+		// the listener's own socket is not needed: close it as soon as it exists
+		for h.Server == nil && time.Now().Before(deadline) {
+			time.Sleep(200 * time.Microsecond)
+		}
+		if h.Server != nil {
+			h.Server.Close()
+		}
 	}
 
 	if err := ts.ListenerStart(handlers.LISTENER_EXTERNAL, handlers.ExternalConfig{Name: "ext", Endpoint: "ext"}); err == nil {
@@ -83,7 +114,7 @@ func NewWorld(prof *profile.Profile) (*World, error) {
 }
 
 func (w *World) Close() {
-	if w.H != nil && w.H.Server != nil {
+	if !w.noSocket && w.H != nil && w.H.Server != nil {
 		w.H.Server.Close()
 	}
 	tsx.CloseTS(w.TS)
